@@ -16,6 +16,30 @@ __attribute__((noinline)) void sim_scrub_stack(void) {
   g_scrub_sink = buf[17];
 }
 
+#if !defined(CELLO_NGC)
+void Cello_Verif_GC_Info(var self, size_t* nslots, size_t* nitems, size_t* mitems, uintptr_t* minptr, uintptr_t* maxptr, bool* running, size_t* freenum);
+#endif
+/* fault placement: allocate unreachable Ints until the calling thread's collector will collect on its (d+1)-th registration
+ * from now - the next allocation(s) of the code under test become collection points */
+void glue_gc_prime(int d) {
+#if !defined(CELLO_NGC)
+  int collected = 0;
+  for (int guard = 0; guard < 100000; guard++) {
+    size_t nitems = 0, mitems = 0; bool running = true;
+    Cello_Verif_GC_Info(current(GC), NULL, &nitems, &mitems, NULL, NULL, &running, NULL);
+    if (!running) return;
+    long gap = (long)mitems - (long)nitems;
+    if (gap == d || (gap < d && collected)) return;
+    new(Int, $I(guard));
+    size_t n2 = 0, m2 = 0;
+    Cello_Verif_GC_Info(current(GC), NULL, &n2, &m2, NULL, NULL, NULL, NULL);
+    if ((long)m2 - (long)n2 > gap) collected = 1;
+  }
+#else
+  (void)d;
+#endif
+}
+
 void glue_run(const Scenario* sc, const Plan* p) {
 #ifndef CELLO_NGC
   var bottom = NULL;
